@@ -862,7 +862,9 @@ class Interp:
             return Opaque("fn-item:" + s)
         sg = strip_generics(s)
         if re.match(r"^[\w:]+$", sg) and "::" in sg and not sg.startswith("_"):
-            return Opaque("fn-item:" + sg)          # function / constructor item passed as a value (e.g. to map_err)
+            return Opaque("fn-item:" + sg)
+        if re.match(r"^<.+ as [\w:<>', ]+>::\w+$", s):
+            return Opaque("fn-item:" + s)           # trait method item, e.g. `<[u8] as ToOwned>::to_owned` handed to Option::map          # function / constructor item passed as a value (e.g. to map_err)
         raise Unsupported("operand " + s)
 
     CLOSURE_SITE = re.compile(r"(?:= |const ZeroSized: )(\{closure@[^}]*\})")
@@ -1019,6 +1021,9 @@ class Interp:
         if s.startswith(("copy ", "move ", "const ")) and " as " not in self._strip_parens(s):
             return self.operand(p, s)
         # cast
+        m = re.match(r"(.+?) as (.+) \((PointerCoercion\(ReifyFnPointer\(\w+\), \w+\))\)$", s)
+        if m and not s.startswith(("copy ", "move ", "const ")):
+            return self.operand(p, m.group(1))          # fn item reified to a function pointer
         m = re.match(r"(.+) as (.+?) \((\w+(?:\(.*\))?)\)$", s)
         if m and s.startswith(("copy ", "move ", "const ")):
             v = self.operand(p, m.group(1))
@@ -1128,6 +1133,9 @@ class Interp:
         if m:
             fields = split_top(m.group(2))
             return Tup([self.operand(p, f.split(": ", 1)[1]) for f in fields], m.group(1))
+        mts = re.match(r"^((?:\w+::)*[A-Z]\w*)(?:::<.*>)?\((.*)\)$", s)
+        if mts and not s.startswith(("copy ", "move ", "const ")):
+            return Tup([self.operand(p, x) for x in split_top(mts.group(2))], mts.group(1))      # tuple struct constructor
         if s.endswith(" }"):
             # struct aggregate whose type arguments contain characters the simple pattern above does not allow (`impl Trait<Item = &T>` ...)
             depth = 0
@@ -1321,7 +1329,18 @@ class Interp:
         if m:
             dest, callee, args_s, nb = m
             args = [self.operand(p, a) for a in split_top(args_s)]
-            results = self.call(fn, p, callee, args)
+            if re.match(r"^(copy|move) _\d+$", callee.strip()):
+                # call through a function pointer held in a local: a reified fn item or a capture-less closure
+                fv = self.operand(p, callee.strip())
+                if isinstance(fv, Tup) and (fv.name or "").startswith("{closure@"):
+                    from . import stdmodels as _sm
+                    results = self.call_mir(_sm.find_closure_by_value(self, fv, fv.name), p, [Ref(Cell(fv))] + args)
+                elif isinstance(fv, Opaque) and fv.name.startswith("fn-item:"):
+                    results = self.call(fn, p, fv.name[len("fn-item:"):], args)
+                else:
+                    raise Unsupported("call through a function pointer that is not a known fn item / closure: " + repr(fv)[:80])
+            else:
+                results = self.call(fn, p, callee, args)
             out = []
             for (q, rv) in results:
                 if rv is PANIC:
